@@ -148,7 +148,7 @@ def ops_unit(u):
         # priority numbering: 1..L, 9..(straddling the default 10), and
         # zero-based 0..L-1 (a priority of exactly 0 is falsy in Python)
         canonical = (tbl[2] == tuple(OPS[:u["k"]]) and not tbl[3])
-        for offset in ((0, 8, -1) if u["k"] <= 2 else
+        for offset in ((0, 8, -1, 300) if u["k"] <= 2 else
                        (0, -1) if canonical else (0,)):
             text, info = render(tbl, offset)
             # SLR tables resolve the same conflicts from FOLLOW sets that
